@@ -77,6 +77,7 @@ type seqOp struct {
 	IfAbsent string  `json:"ifa"`
 	Ld       string  `json:"ld"`    // single loader outcome: val | err | nf | nfw | panic | ""
 	Shape    string  `json:"shape"` // bulk loader: map | nil | err | errnf | panic | ""
+	CC       int     `json:"cc"`    // 1 = the call is made with an already cancelled context (the scripted loaders ignore it)
 	Dt       int64   `json:"dt"`    // SaveLoad: clock offset between save and load (units)
 	Max2     int64   `json:"max2"`  // SaveLoad: target maximum (0 = same as source)
 }
@@ -494,6 +495,14 @@ func (r *seqRun) step(i int, op seqOp) (rec trRec) {
 	}
 	c := r.c
 	ctx := context.Background()
+	ctxOf := func(op seqOp) context.Context {
+		if op.CC == 1 {
+			cctx, cancel := context.WithCancel(ctx)
+			cancel()
+			return cctx
+		}
+		return ctx
+	}
 	func() {
 		defer func() {
 			if p := recover(); p != nil {
@@ -596,24 +605,24 @@ func (r *seqRun) step(i int, op seqOp) (rec trRec) {
 		case "SetRefreshableAfter":
 			c.SetRefreshableAfter(op.K, r.opDur(&op))
 		case "Get":
-			v, err := c.Get(ctx, op.K, seqLoader{r})
+			v, err := c.Get(ctxOf(op), op.K, seqLoader{r})
 			rec.Val, rec.Err = v, errClass(err)
 			rec.Ok = b2i(err == nil)
 		case "BulkGet":
-			m, err := c.BulkGet(ctx, op.Ks, seqBulkLoader{r})
+			m, err := c.BulkGet(ctxOf(op), op.Ks, seqBulkLoader{r})
 			rec.Err = errClass(err)
 			rec.Ok = b2i(err == nil)
 			for k, v := range m {
 				rec.Res = append(rec.Res, trKV{k, v})
 			}
 		case "Refresh":
-			ch := c.Refresh(ctx, op.K, seqLoader{r})
+			ch := c.Refresh(ctxOf(op), op.K, seqLoader{r})
 			if ch != nil {
 				rec.Ch = 1
 				rec.RRs = drainRR(ch)
 			}
 		case "BulkRefresh":
-			ch := c.BulkRefresh(ctx, op.Ks, seqBulkLoader{r})
+			ch := c.BulkRefresh(ctxOf(op), op.Ks, seqBulkLoader{r})
 			if ch != nil {
 				rec.Ch = 1
 				select {
